@@ -62,6 +62,13 @@ ORDER = [x[0] for x in PROPS]
 
 
 # ------------------------------------------------------------------ canonical forms
+def safe(f):
+    try:
+        return f()
+    except Exception as e:
+        return f"{type(e).__name__}: {e}"
+
+
 def exc_kind(e):
     if isinstance(e, P.MalformedPacket):
         return 4
@@ -554,7 +561,7 @@ def run_props(ctx, out):
         out.seen(("unpack", pt, b[:200]), nontrivial=len(b) > 1)
         if r != m:
             out.disagreements.append({"case": {"kind": "unpack", "pt": pt, "bytes": b.hex()[:4000]}, "impl": r[:60], "model": m[:60]})
-    out.sample({"unpack_case": {"pt": ucases[6][0], "bytes": ucases[6][1].hex()}, "impl": impl_unpack(*ucases[6])})
+    out.sample({"unpack_case": {"pt": ucases[6][0], "bytes": ucases[6][1].hex()}, "impl": safe(lambda: impl_unpack(*ucases[6]))})
 
 
 def run_vbi(ctx, out):
@@ -612,7 +619,7 @@ def run_vbi(ctx, out):
             r = [exc_kind(e)]
         if r != m:
             out.disagreements.append({"case": {"kind": "vbi_decode", "bytes": b.hex()}, "impl": r, "model": m})
-    out.sample({"vbi": [(x, bytes(VariableByteIntegers.encode(x)).hex()) for x in (127, 128, 16384, 268435455)]})
+    out.sample({"vbi": [(x, safe(lambda: bytes(VariableByteIntegers.encode(x)).hex())) for x in (127, 128, 16384, 268435455)]})
     # UTF-8 acceptance of the codec vs the model's utf8_valid
     us = [bytes(l) for l in ([0xc0, 0x80], [0xc2, 0x80], [0xe0, 0x9f, 0xbf], [0xe0, 0xa0, 0x80], [0xed, 0x9f, 0xbf],
                              [0xed, 0xa0, 0x80], [0xef, 0xbf, 0xbf], [0xf0, 0x8f, 0xbf, 0xbf], [0xf0, 0x90, 0x80, 0x80],
@@ -742,10 +749,13 @@ def run_subopts(ctx, out):
 
 
 def run(ctx, out):
-    run_vbi(ctx, out)
-    run_reason(ctx, out)
-    run_subopts(ctx, out)
-    run_props(ctx, out)
+    errors = []
+    for section in (run_vbi, run_reason, run_subopts, run_props):
+        try:
+            section(ctx, out)
+        except Exception:       # keep what the other sections found; the error is re-raised below
+            import traceback
+            errors.append(f"{section.__name__}: {traceback.format_exc()[-1500:]}")
     # de-duplicate violations by signature, keeping the smallest case of each
     best = {}
     for v in out.violations:
@@ -755,6 +765,8 @@ def run(ctx, out):
     for k in best:
         out.stat("violation:" + k, sum(1 for v in out.violations if v["signature"] == k))
     out.violations[:] = sorted(best.values(), key=lambda v: v["signature"])
+    if errors:
+        raise RuntimeError("harness section crashed (implementation behaves unexpectedly):\n" + "\n".join(errors))
 
 
 # ------------------------------------------------------------------ replay / findings
